@@ -208,11 +208,13 @@ func applyFS(fs hackpadfs.FS, op Op) (res Res) {
 	case "chown":
 		res.Err = hackpadfs.Chown(fs, op.P, os.Getuid(), os.Getgid())
 	case "chtimes":
-		t := time.Unix(op.Sec, 0)
+		t, at := time.Unix(op.Sec, 0), time.Unix(op.Sec, 0)
 		if op.Sec == 0 {
-			t = time.Time{} // the zero Time (a degenerate argument value)
+			// the zero modification time (a degenerate argument value: "leave it unchanged"); the access time stays a real
+			// one, because with BOTH omitted Linux answers success without even looking the file up
+			t, at = time.Time{}, time.Unix(1_200_000_000, 0)
 		}
-		res.Err = hackpadfs.Chtimes(fs, op.P, t, t)
+		res.Err = hackpadfs.Chtimes(fs, op.P, at, t)
 	case "stat":
 		fi, err := hackpadfs.Stat(fs, op.P)
 		res.Err = err
@@ -318,11 +320,11 @@ func ApplyOS(root string, op Op) (res Res) {
 	case "chown":
 		res.Err = os.Chown(p, os.Getuid(), os.Getgid())
 	case "chtimes":
-		t := time.Unix(op.Sec, 0)
+		t, at := time.Unix(op.Sec, 0), time.Unix(op.Sec, 0)
 		if op.Sec == 0 {
-			t = time.Time{}
+			t, at = time.Time{}, time.Unix(1_200_000_000, 0)
 		}
-		res.Err = os.Chtimes(p, t, t)
+		res.Err = os.Chtimes(p, at, t)
 	case "stat", "lstatorstat", "open":
 		fi, err := os.Stat(p)
 		res.Err = err
